@@ -3,6 +3,7 @@ package vrt
 import (
 	"fmt"
 	"sync"
+	"sync/atomic"
 	"unsafe"
 )
 
@@ -14,6 +15,33 @@ func in() *Exec {
 		return nil
 	}
 	return e
+}
+
+// Solo mode (SEQ runs): the harness drives the code under test on one
+// goroutine outside any execution, where the shims pass through to the real
+// primitives. A lock that is not available there can never become available -
+// the only goroutine that could release it is the one asking - unless the code
+// has started goroutines of its own (counted by Go). Such a self-deadlock is
+// turned into a panic the harness reports, instead of a hang.
+var (
+	solo     atomic.Bool
+	passLive atomic.Int32
+)
+
+// SoloDeadlock is the panic value of a self-deadlock detected in solo mode.
+type SoloDeadlock struct{ Op string }
+
+func (d SoloDeadlock) Error() string {
+	return "vrt: deadlock: " + d.Op + " would block forever (the lock is held and this is the only goroutine)"
+}
+
+// Solo switches solo mode on or off and returns the previous setting.
+func Solo(on bool) bool { return solo.Swap(on) }
+
+func soloStuck(op string) {
+	if solo.Load() && passLive.Load() == 0 {
+		panic(SoloDeadlock{Op: op})
+	}
 }
 
 // Mutex replaces sync.Mutex in instrumented code.
@@ -30,7 +58,10 @@ func (m *Mutex) Lock() {
 		if cur != nil {
 			return // unwinding: no-op
 		}
-		m.mu.Lock()
+		if !m.mu.TryLock() {
+			soloStuck("Mutex.Lock")
+			m.mu.Lock()
+		}
 		return
 	}
 	e.point("Mutex.Lock")
@@ -91,7 +122,10 @@ func (m *RWMutex) Lock() {
 		if cur != nil {
 			return
 		}
-		m.mu.Lock()
+		if !m.mu.TryLock() {
+			soloStuck("RWMutex.Lock")
+			m.mu.Lock()
+		}
 		return
 	}
 	e.point("RWMutex.Lock")
@@ -127,7 +161,10 @@ func (m *RWMutex) RLock() {
 		if cur != nil {
 			return
 		}
-		m.mu.RLock()
+		if !m.mu.TryRLock() {
+			soloStuck("RWMutex.RLock")
+			m.mu.RLock()
+		}
 		return
 	}
 	e.point("RWMutex.RLock")
